@@ -79,6 +79,18 @@ func c10Codecs(c *Ctx) {
 			cases = append(cases, c10Case{ts, g, rng.Fork()})
 			n++
 		}
+		// one larger deep-sample geometry per syntax (frames with Fibonacci-skewed difference
+		// categories need a few thousand samples to contain every category)
+		g := Geo{W: 100, H: 68, SPP: 1, BitsAllocated: 16, BitsStored: 16}
+		if g.BitsStored > ts.MaxBits {
+			g.BitsStored = ts.MaxBits
+		}
+		if g.BitsStored <= 8 {
+			g.BitsAllocated = 8
+		}
+		if g.Supported(ts) {
+			cases = append(cases, c10Case{ts, g, rng.Fork()})
+		}
 	}
 	ParallelFor(len(cases), c.Work, func(i int) { c10OneGeometry(c, cases[i], i == 0) })
 }
@@ -115,6 +127,9 @@ func c10OneGeometry(c *Ctx, k c10Case, sample bool) {
 	pool := make([][]byte, len(classes))
 	for i, cl := range classes {
 		pool[i] = GenFrame(rng, g, cl)
+	}
+	if g.W*g.H*g.SPP >= 2000 { // the dedicated large geometry: skewed difference categories
+		pool[2], pool[3] = GenSkewedFrame(rng, g), GenSkewedFrame(rng, g)
 	}
 	// every frame alone: one call, one frame, fresh destination
 	encAlone := make([][]byte, len(pool))
